@@ -166,6 +166,7 @@ def c11_vocab(run):
     rf_vocab.rf7j(run)
     run.min_instances('RF7j', 8)
     rf_vocab.rf7k(run)
+    rf_vocab.rf75(run)
 
 
 def c10_vocab(run):
